@@ -17,6 +17,11 @@ class AbsRaise(Exception):
         self.value = value
 
 
+class AbsBlocked(BaseException):
+    """The interpreted thread of control blocks for ever here (e.g. Queue.get() on an empty queue in a sequential simulation of
+    worker threads): evaluation is abandoned at this point - no handler, no finally suite and no context-manager exit runs."""
+
+
 class _Return(Exception):
     def __init__(self, value):
         self.value = value
@@ -110,6 +115,87 @@ class Interp:
         self.ext = ext or {}  # dotted external name -> python callable
         self.budget = budget
         self.class_cache = {}
+        self.ext.setdefault("sys.exc_info", self._exc_info)
+
+    def _exc_names(self, value):
+        """Class names an abstract exception value is an instance of (its own class first), as far as they are known."""
+        import builtins as _b
+        names = []
+        if isinstance(value, Obj) and value.cls is not None:
+            for c_ in value.cls.mro():
+                names.append(c_ if isinstance(c_, str) else c_.name)
+            names = [n_.split(".")[-1] for n_ in names]
+        else:
+            nm = value.name if isinstance(value, Obj) else str(value).split(":")[0].strip() if isinstance(value, str) else None
+            if nm:
+                names.append(nm.split(".")[-1])
+        # library classes: continue with their real bases
+        out = []
+        for n_ in names:
+            if n_ not in out:
+                out.append(n_)
+            k_ = getattr(_b, n_, None)
+            if isinstance(k_, type) and issubclass(k_, BaseException):
+                for b_ in k_.__mro__:
+                    if b_.__name__ not in out and b_ is not object:
+                        out.append(b_.__name__)
+        if not any(x in ("BaseException",) for x in out):
+            # an exception class the evaluator knows only by name (a user's error): an ordinary Exception
+            out += [x for x in ("Exception", "BaseException") if x not in out]
+        return out
+
+    def _matching_handler(self, handlers, value, env=None):
+        """The first `except` clause that catches the abstract exception `value` (None: it propagates)."""
+        names = self._exc_names(value)
+
+        def class_names(v):
+            if isinstance(v, type):
+                return [v.__name__]
+            if isinstance(v, ClassVal):
+                return [v.cls.name]
+            if isinstance(v, Stub):
+                return [v.name.split(".")[-1]]
+            if isinstance(v, (tuple, list)):
+                out = []
+                for x in v:
+                    r_ = class_names(x)
+                    if r_ is None:
+                        return None
+                    out += r_
+                return out
+            return None
+        for h in handlers:
+            t = h.type
+            if t is None:
+                return h
+            wanted = None
+            if env is not None:
+                try:
+                    wanted = class_names(self.eval(t, env))
+                except (AbsRaise, AnalysisError):
+                    wanted = None
+            if wanted is None:
+                wanted = []
+                for x in (t.elts if isinstance(t, ast.Tuple) else [t]):
+                    if isinstance(x, ast.Name):
+                        wanted.append(x.id)
+                    elif isinstance(x, ast.Attribute):
+                        wanted.append(x.attr)
+                    else:
+                        return h  # a computed class: not decided here, taken as matching (as before)
+            if any(w in names for w in wanted):
+                return h
+        return None
+
+    def _exc_info(self):
+        """sys.exc_info(): the exception being handled by the innermost active handler."""
+        h = getattr(self, "_handling", None)
+        if not h:
+            return (None, None, None)
+        v = h[-1]
+        t = self.class_val(v.cls) if isinstance(v, Obj) and v.cls is not None else ("type", getattr(v, "name", None) or str(v).split(":")[0])
+        tb = v.attrs.get("__traceback__") if isinstance(v, Obj) else None
+        return (t, v, tb)
 
     # ------------------------------------------------------------------ values
     def truth(self, v):
@@ -543,13 +629,19 @@ class Interp:
                     exc_.attrs.setdefault("__context__", cur[-1])
             raise AbsRaise(exc_)
         elif isinstance(s, ast.Try):
+            blocked = False
             try:
                 try:
                     self.exec_block(s.body, env)
+                except AbsBlocked:
+                    blocked = True
+                    raise
                 except AbsRaise as e:
                     if not s.handlers:
                         raise
-                    h = s.handlers[0]
+                    h = self._matching_handler(s.handlers, e.value, env)
+                    if h is None:
+                        raise
                     self.tb_here(e.value, env)
                     if h.name:
                         env.vars[h.name] = e.value
@@ -562,8 +654,12 @@ class Interp:
                         self._handling.pop()
                 else:
                     self.exec_block(s.orelse, env)
+            except AbsBlocked:
+                blocked = True
+                raise
             finally:
-                self.exec_block(s.finalbody, env)
+                if not blocked:
+                    self.exec_block(s.finalbody, env)
         elif isinstance(s, ast.With) and self._with_repo_contextmanager(s, env):
             pass  # handled (see _with_repo_contextmanager)
         elif isinstance(s, ast.With):
@@ -584,6 +680,8 @@ class Interp:
                     if it.optional_vars is not None:
                         self.assign(it.optional_vars, bound, env)
                 self.exec_block(s.body, env)
+            except AbsBlocked:
+                raise
             except AbsRaise as e_:
                 left = _unwind(exits, e_)
                 if left is e_:
@@ -905,6 +1003,14 @@ class Interp:
                     return Closure(got, None, bound_self=o)
             if attr == "__class__" and o.cls is not None:
                 return self.class_val(o.cls)
+            if o.cls is not None:
+                # a method inherited from a library base class for which the rule supplies an abstract model (e.g. queue.Queue.put
+                # for the repo's Queue subclasses, which override only the storage hooks)
+                for c_ in o.cls.repo_mro():
+                    for b_ in c_.ext_bases():
+                        fb = self.ext.get(f"{b_}.{attr}")
+                        if fb is not None:
+                            return Stub(f"{b_}.{attr}", lambda *a, _fb=fb, _o=o, **k: _fb(_o, *a, **k))
             raise AbsRaise(f"AttributeError: {attr}")
         if isinstance(o, ClassVal):
             got = o.cls.lookup(attr)
